@@ -528,7 +528,7 @@ def run_check(prop, tier, seed, replay=None, jobs=None):
         'wall_s': round(time.time() - t0, 2), 'violations': len(violations),
     }
     if not replay:
-        write_json(os.path.join(VERIF, 'evidence', f'{prop}.json'), evidence)
+        write_json(os.path.join(os.environ.get('VERIF_EVIDENCE_DIR') or os.path.join(VERIF, 'evidence'), f'{prop}.json'), evidence)
 
     for ln in known_lines:
         print(ln)
